@@ -431,7 +431,10 @@ def run_exec_property(prop, tier, rng, n_quick, n_thorough, gen_kw, weights, nop
     for key, fn in WITNESSES.get(prop, []):
         fails, text = fn()
         fw.witness_result(out, prop, key, fails, (fn.__doc__ or "").split(":")[0].strip() + " -- " + text)
-        out.notes.append("generator avoids the trigger of %s" % key)
+        if key in {f["key"] for f in fw.load_findings(prop)["finding"]}:
+            out.notes.append("generator avoids the trigger of %s" % key)
+        else:
+            out.notes.append("witness of the repaired defect %s runs as a regression test" % key)
     n = n_quick if tier == "quick" else n_thorough
     gen_kw = dict(gen_kw)
     alts = gen_kw.pop("alt", [])          # [(share, overriding knobs)]: sub-profiles mixed into the stream of cases
